@@ -8,7 +8,9 @@ for d in sorted(glob.glob('/verif/seeded/*/')):
     m = json.load(open(d + 'meta.json'))
     obs = ', '.join(m.get('check_run', {}).get('obligations_reporting_violation', [])) or '(see meta.json)'
     notes = m.get('notes', '')
-    if 'first run' in notes:
+    if m.get('caught_when'):
+        c = m['caught_when']
+    elif 'first run' in notes:
         c = 'first run'
     elif 'replay' in notes and 'fixed' in notes:
         c = 'solver yes, replay fixed'
